@@ -145,11 +145,23 @@ def check_update(ctx, fn, args, tol_mean, with_ref, source):
     """the property text on ONE update of the implementation; returns 'raise' / 'skip' / 'value'"""
     case = {"fn": fn, "args": A.jsonable(args), "source": source}
     out = A.run_py(A.real_fn(fn), args)
+    if out in ("ValueError", "OverflowError"):
+        # pure-Python math raises on domain / range errors where libm (and numba-compiled code) returns
+        # nan / inf: decide the case on the twin, which has the C semantics
+        out, _ = A.twin().call(fn, args)
+        if out == "OverflowError":          # float ** int overflow: Python-only, cannot be decided here
+            ctx.tally("python-only-overflow-not-decided")
+            return "raise"
     case["impl"] = A.jsonable(out)
     ok_in = valid_input(fn, args)
     if isinstance(out, str):
-        if ok_in:
+        # an exception is neither a skip nor a result.  It is a violation on every input in EP's range
+        # (recorded, perturbed, coherent); on the "wild" stream (independent magnitudes 1e-300..1e300, inf,
+        # nan: not a range EP produces) assertions may fire and are only counted
+        if ok_in and source != "wild":
             ctx.oracle_fail("raises:%s:%s" % (fn, out), "a valid update neither skips nor returns moments: it raises " + out, case)
+        else:
+            ctx.tally("raises-outside-ep-range:" + out)
         return "raise"
     first = out[0]
     if first != first:
